@@ -4,7 +4,7 @@ from common import *
 import gcgen
 
 C08_THEOREMS = ['SodiumVerif.Gc.collect_sound', 'SodiumVerif.Gc.collect_frees_only_garbage', 'SodiumVerif.Gc.collect_counts_exact', 'SodiumVerif.Gc.onePass_sound', 'SodiumVerif.Gc.collect_dtor_once', 'SodiumVerif.GcScript.script_sound', 'SodiumVerif.GcScript.reachable_runOps', 'SodiumVerif.GcScript.dtor_once', 'SodiumVerif.Gc.gcinv_init', 'SodiumVerif.Gc.gcinv_newNode', 'SodiumVerif.Gc.gcinv_incRef', 'SodiumVerif.Gc.gcinv_decRef_handle', 'SodiumVerif.Gc.gcinv_addEdge', 'SodiumVerif.Gc.gcinv_delEdge', 'SodiumVerif.Gc.gcinv_upgradeDrop', 'SodiumVerif.Gc.ext_decRef_self', 'SodiumVerif.Gc.ext_addEdge', 'SodiumVerif.Gc.ext_delEdge', 'SodiumVerif.Gc.decRef_freed', 'SodiumVerif.Gc.incRef_count', 'SodiumVerif.Gc.collect_exact', 'SodiumVerif.Gc.collect_complete_total', 'SodiumVerif.Gc.collect_sound_total', 'SodiumVerif.GcScript.no_garbage_after_collect', 'SodiumVerif.GcScript.drop_all_collect_frees_all']
-C16_THEOREMS = ['SodiumVerif.Gc.reset1_trace_calls_le', 'SodiumVerif.Gc.reset1_cost_le', 'SodiumVerif.Gc.reset2_cost_le', 'SodiumVerif.Gc.markGray_cost_le', 'SodiumVerif.Gc.scan_cost_le', 'SodiumVerif.Gc.scanBlack_cost_le', 'SodiumVerif.Gc.collectWhite_cost_le', 'SodiumVerif.Gc.displayGraph_cost_le', 'SodiumVerif.Gc.markRoots_trace_calls_le', 'SodiumVerif.Gc.scanRoots_trace_calls_le', "SodiumVerif.Gc.collectRoots_trace_calls_le'", 'SodiumVerif.Gc.free_no_trace', 'SodiumVerif.Gc.onePass_trace_calls_le', 'SodiumVerif.Gc.onePass_edge_calls_le', 'SodiumVerif.Gc.reset1_fuel', 'SodiumVerif.Gc.reset2_fuel', 'SodiumVerif.Gc.markGray_fuel', 'SodiumVerif.Gc.scan_fuel', 'SodiumVerif.Gc.collectWhite_fuel', 'SodiumVerif.Gc.markRoots_fuel', 'SodiumVerif.Gc.scanRoots_fuel', 'SodiumVerif.Gc.collectRoots_fuel', 'SodiumVerif.Gc.onePass_fuel', 'SodiumVerif.Gc.onePass_progress', 'SodiumVerif.Gc.collectCycles_terminates', 'SodiumVerif.Gc.collectCycles_trace_calls_le', 'SodiumVerif.Gc.collectCycles_edge_calls_le']
+C16_THEOREMS = ['SodiumVerif.Gc.reset1_trace_calls_le', 'SodiumVerif.Gc.reset1_cost_le', 'SodiumVerif.Gc.reset2_cost_le', 'SodiumVerif.Gc.markGray_cost_le', 'SodiumVerif.Gc.scan_cost_le', 'SodiumVerif.Gc.scanBlack_cost_le', 'SodiumVerif.Gc.collectWhite_cost_le', 'SodiumVerif.Gc.displayGraph_cost_le', 'SodiumVerif.Gc.markRoots_trace_calls_le', 'SodiumVerif.Gc.scanRoots_trace_calls_le', "SodiumVerif.Gc.collectRoots_trace_calls_le'", 'SodiumVerif.Gc.free_no_trace', 'SodiumVerif.Gc.onePass_trace_calls_le', 'SodiumVerif.Gc.onePass_edge_calls_le', 'SodiumVerif.Gc.reset1_fuel', 'SodiumVerif.Gc.reset2_fuel', 'SodiumVerif.Gc.markGray_fuel', 'SodiumVerif.Gc.scan_fuel', 'SodiumVerif.Gc.collectWhite_fuel', 'SodiumVerif.Gc.markRoots_fuel', 'SodiumVerif.Gc.scanRoots_fuel', 'SodiumVerif.Gc.collectRoots_fuel', 'SodiumVerif.Gc.onePass_fuel', 'SodiumVerif.Gc.onePass_progress', 'SodiumVerif.Gc.collectCycles_terminates', 'SodiumVerif.Gc.collectCycles_trace_calls_le', 'SodiumVerif.Gc.collectCycles_edge_calls_le', 'SodiumVerif.Gc.second_pass_idle', 'SodiumVerif.Gc.two_passes_suffice', 'SodiumVerif.Gc.collect_passes_le_two', 'SodiumVerif.Gc.collect_frees_what_first_pass_frees', 'SodiumVerif.Gc.collect_cost_linear', 'SodiumVerif.Gc.collect_cost_linear_on', 'SodiumVerif.Gc.next_candidates_in']
 
 
 def strip_truth(lines):
